@@ -291,6 +291,19 @@ func c20Leaves(kind string) []*cnode {
 		}
 		return out
 	}
+	if kind == "norange" {
+		// no range items: flipping both end points of a range is only a case flip where the two case blocks are aligned
+		return []*cnode{
+			cstr("a"), cstr("b"), cstr("ab"), cstr("ba"), cstr("abb"),
+			{k: ckDot},
+			cclsNode(ccls(false, nil, a, b)),                 // [ab]
+			cclsNode(ccls(true, nil, a)),                     // [^a]
+			cclsNode(ccls(true, nil, a, b)),                  // [^ab]
+			cclsNode(ccls(false, ccls(false, nil, b), a, b)), // [ab-[b]]
+			cclsNode(ccls(true, ccls(false, nil, b), a)),     // [^a-[b]]
+			{k: ckRef},
+		}
+	}
 	if kind == "reduced" {
 		return []*cnode{
 			cstr("a"), cstr("ab"), cstr("abb"),
@@ -1075,6 +1088,45 @@ func runC20(c *Ctx) {
 		catSize = 3
 	}
 	cat := c20Family(gCat, 1, catSize, map[string]bool{})
+	// ALPHA: the small CASE grammar over EVERY letter below U+0530 whose fold orbit is a simple pair (ASCII a..z,
+	// Latin-1, Latin Extended, Greek, Cyrillic), three letters at a time in code-point order: the fold tables and
+	// the ASCII fast paths have range boundaries (z, Z, U+00FF, ...) that three fixed letters never touch
+	var alpha []*c20Letters
+	{
+		var ls [][2]rune
+		for r := rune('a'); r < 0x530; r++ {
+			if lo, up, ok := simplePairLetter(r); ok && lo == r {
+				ls = append(ls, [2]rune{lo, up})
+			}
+		}
+		for i := 0; i < len(ls); i += 3 {
+			j := i
+			if j+3 > len(ls) {
+				j = len(ls) - 3
+			}
+			tr := ls[j : j+3]
+			alpha = append(alpha, &c20Letters{fmt.Sprintf("alpha %c/%c %c/%c %c/%c", tr[0][0], tr[0][1], tr[1][0], tr[1][1], tr[2][0], tr[2][1]),
+				map[rune][2]rune{'a': tr[0], 'b': tr[1], 'c': tr[2]}})
+		}
+		c.extra["alpha_letters"] = len(ls)
+	}
+	small2 := c20Family(gFull, 1, 2, map[string]bool{})
+	gNoRange := &c20Grammar{leaves: c20Leaves("norange"), quants: quants, memo: map[int][]*cnode{}}
+	small2nr := c20Family(gNoRange, 1, 2, map[string]bool{})
+	for _, L := range alpha {
+		// ranges only where the three letters are consecutive and their capitals lie at one common distance
+		a, b, cc := L.pair['a'], L.pair['b'], L.pair['c']
+		aligned := b[0] == a[0]+1 && cc[0] == b[0]+1 && b[1]-b[0] == a[1]-a[0] && cc[1]-cc[0] == a[1]-a[0]
+		fam, pats := "ALPHA size<=2 (no ranges)", small2nr
+		if aligned {
+			fam, pats = "ALPHA size<=2", small2
+		}
+		add(fam, pats, "i", L, 3, true)
+		if thorough {
+			add(fam, pats, "iG", L, 3, true)
+			add(fam, pats, "iR", L, 2, true)
+		}
+	}
 	if !thorough {
 		add(fmt.Sprintf("CASE-C size<=%d", catSize), cat, "i", &c20ASCII, 3, true)
 		red4 := c20Family(gRed, 4, 4, map[string]bool{})
